@@ -49,21 +49,12 @@ pub enum Node {
 fn gamma(a: f64) -> f64 {
     let mut s = 2.4857408913875355e-5;
     if a < 0.5 {
-        s += 1.0514237858172197 / (1.0 - a);
-        s += -3.4568709722201625 / (2.0 - a);
-        s += 4.512277094668948 / (3.0 - a);
-        s += -2.982852253_2357664 / (4.0 - a);
-        s += 1.056397115771267 / (5.0 - a);
-        s += -1.9542877319164587e-1 / (6.0 - a);
-        s += 1.709705434044412e-2 / (7.0 - a);
-        s += -5.719261174043057e-4 / (8.0 - a);
-        s += 4.633994733599057e-6 / (9.0 - a);
-        s += -2.7199490848860772e-9 / (10.0 - a);
-        std::f64::consts::PI
-            / ((std::f64::consts::PI * a).sin()
-                * s
-                * 1.860_382_734_205_265_7
-                * ((a - 10.400511) / std::f64::consts::E).powf(0.5 - a))
+        // reflection formula: gamma(a) = pi / (sin(pi * a) * gamma(1 - a)); the sine is taken of
+        // the distance to the nearest integer, which is exact, so that it stays accurate near the poles
+        let nearest = a.round();
+        let sign = if nearest % 2.0 == 0.0 { 1.0 } else { -1.0 };
+        let sin_pi_a = sign * (std::f64::consts::PI * (a - nearest)).sin();
+        std::f64::consts::PI / (sin_pi_a * gamma(1.0 - a))
     } else {
         s += 1.0514237858172197 / a;
         s += -3.456870972220_1625 / (a + 1.0);
